@@ -178,9 +178,13 @@ def _get_region_params(region, shape_template, precision=8, frame=None):
         # ellipse region is defined by full axis lengths
         is_ellipse = (shape_template[0] in ellipse_names
                       and param_name in ellipse_axes)
+        value_precision = precision
         if not isinstance(value, (PixCoord, SkyCoord)) and is_ellipse:
             # deepcopy to prevent changing value in memory
             value = deepcopy(value) / 2.0  # semi-axis lengths
+            # one more digit, so that the full axis (twice the written
+            # number) is still good to the requested precision
+            value_precision = precision + 1
 
         if isinstance(value, PixCoord):
             # pixels; ds9's origin is (1, 1)
@@ -207,14 +211,15 @@ def _get_region_params(region, shape_template, precision=8, frame=None):
 
         elif isinstance(value, Angle):
             value = value.to_string(unit='deg', decimal=True,
-                                    precision=precision)
+                                    precision=value_precision)
 
         elif isinstance(value, Quantity):
             # [:-4] to trim ' deg' from string end
-            value = value.to_string(unit='deg', precision=precision)[:-4]
+            value = value.to_string(unit='deg',
+                                    precision=value_precision)[:-4]
 
         else:
-            value = f'{value:.{precision}f}'
+            value = f'{value:.{value_precision}f}'
 
         param[param_name] = value
 
